@@ -623,7 +623,7 @@ func writeCorpus(dir string) {
 	r := vh.NewRng(303)
 	base := func(mode string) Case {
 		return Case{Mode: mode, Pool: PoolCfg{Network: "172.20.5.0/24", Gateway: "172.20.5.1", DNS: []string{"9.9.9.10", "192.0.2.53"}, LeaseSec: 3600},
-			ServerIP: "172.20.5.2", ServerMAC: serverMACs[0], SetConfig: true, Hist: acquire(0, false, nil)}
+			ServerIP: "172.20.5.254", ServerMAC: serverMACs[0], SetConfig: true, Hist: acquire(0, false, nil)}
 	}
 	mac := clientMAC(0)
 	frame := func(s reqSpec, fs FrameSpec) Probe {
@@ -637,7 +637,7 @@ func writeCorpus(dir string) {
 		}
 		return Probe{Frame: buildFrame(fs), Route: "k"}
 	}
-	ip := net.ParseIP("172.20.5.3")
+	ip := net.ParseIP("172.20.5.2") // the first address the pool hands out
 	disc := reqSpec{typ: 1, prl: true}
 	req := reqSpec{typ: 3, reqIP: ip, prl: true}
 	w := map[string]Case{}
